@@ -15,6 +15,11 @@ def decode(string):
   return value
 
 def validate_decoded(integer):
+  if not isinstance(integer, int):
+    raise gfapy.TypeError(
+      "the class {} is incompatible with the datatype\n"
+      .format(integer.__class__.__name__)+
+      "(accepted classes: str, int)")
   if integer < 0:
     raise gfapy.ValueError(
       "{} is not a positive integer".format(integer))
